@@ -84,6 +84,9 @@ func Parse(s string) (*Predicate, error) {
 	if idx < 0 {
 		return nil, fmt.Errorf("predicate.Parse could not find anchor definition in %s", raw)
 	}
+	if idx+3 > len(raw)-1 {
+		return nil, fmt.Errorf("predicate.Parse could not find the closing bracket of the anchor in %s", raw)
+	}
 	id, ta := raw[0:idx+1], raw[idx+3:len(raw)-1]
 	id, err := strconv.Unquote(id)
 	if err != nil {
@@ -98,7 +101,7 @@ func Parse(s string) (*Predicate, error) {
 	if ta[0] == '"' {
 		ta = ta[1:]
 	}
-	if ta[len(ta)-1] == '"' {
+	if len(ta) > 0 && ta[len(ta)-1] == '"' {
 		ta = ta[:len(ta)-1]
 	}
 	pta, err := time.Parse(time.RFC3339Nano, ta)
